@@ -62,6 +62,15 @@ class DirHandler(BaseHandler):
                     self.config,
                     vfs=self.vfs,
                 )
+                if handler.selector != self.selectorbase + "/" + file:
+                    # Some handler (URLTypeRewriter) answers for another
+                    # selector than the one we asked about: that is not this
+                    # directory's entry.
+                    raise GopherExceptions.FileNotFound(
+                        self.selectorbase + "/" + file,
+                        "no handler found",
+                        self.protocol,
+                    )
                 fileentry = handler.getentry()
             except (GopherExceptions.FileNotFound, OSError):
                 # This entry cannot be served (dangling symlink, special file,
